@@ -345,6 +345,9 @@ def run(F, R):
                         mod_iv = intervals.ival(c, rems[0][3])
                         R.check("C19-R4", "remainder-of-full-nanoseconds:" + side, exact and mod_iv == (1000, 1000), "adjustment = nanoseconds % 1000 of the whole distance",
                                 "the sub-microsecond part is not (the distance's nanoseconds) %% 1000 taken from the full value: dividend %s, modulus %s" % (fmt_t(dv)[:100], mod_iv), lib.loc(tr, b))
+                    elif not rems and any(x[0] == "call" and lib.norm(x[1]).split("::")[-1] in ("as_nanos", "subsec_nanos") for x in walk(adj)):
+                        R.violation("C19-R4", "remainder-of-full-nanoseconds:" + side, "the adjustment is the distance's nanoseconds without `% 1000`: the whole distance is removed, not its sub-microsecond part", lib.loc(tr, b))
+                        continue
                     if iv is None:
                         R.inconclusive("C19-R4", "zero-adjustment:" + side, "the interval evaluator cannot bound the adjustment %s" % fmt_t(adj)[:120])
                         continue
@@ -391,4 +394,10 @@ def run(F, R):
                 nested = [b2 for b2 in c.bodies if b2["id"].startswith(b["id"] + "::") and b2.get("kind") == "fn"]
                 inner = [x[1]["s"] for cb in list(cl) + nested for x in walk(BV.of(cb).trace_local(0)) if x[0] == "const"]
                 ok = any(n.endswith("Storage::get_int") for n in names) and any("micros_from_epoch_to_system_time" in s for s in inner)
+                # .. for every stored value: no filter or test between the stored integer and the decoder
+                allv = [v] + [BV.of(cb) for cb in list(cl) + nested]
+                filt = sorted(set(lib.norm(t2.get("callee") or "").split("::")[-1] for v2 in allv for _, t2 in v2.calls() if lib.norm(t2.get("callee") or "").split("::")[-1] in ("filter", "take_if", "then", "then_some", "and_then", "is_positive", "is_negative")))
+                tests = [1 for v2 in allv for bi2 in v2.reach0 if v2.blocks[bi2]["t"]["k"] == "switch" and v2.switch_subject(bi2) is None and v2.crate.types[v2.blocks[bi2]["t"]["ot"]]["s"] == "bool"]
+                R.check("C19-R6", "get_time-decodes-every-value", not filt and not tests, "every stored integer is decoded (no filter, no test)",
+                        "get_time drops or tests stored values before decoding them (%s%s): times that were stored come back as absent" % (filt, ", boolean test" if tests else ""))
                 R.check("C19-R6", "get_time-decoding", ok, "get_int(key).map(micros_from_epoch_to_system_time)", "get_time does not decode with micros_from_epoch_to_system_time: %s %s" % (names, inner))
